@@ -7,7 +7,7 @@ import sys
 import time
 from pathlib import Path
 
-REPO = "/repo"
+REPO = os.environ.get("XV_REPO", "/repo")
 VERIF = Path(__file__).resolve().parent.parent
 
 
